@@ -211,6 +211,8 @@ def scalar_ops(n, K, a, obj, P):
             if P.get("invalid", True):
                 ops.append(_call(f"with_{n}", "with:kw_bad", x="bad", **f))
                 ops.append(_call(f"update_{n}", "update:kw_bad", x="bad", **f))
+                ops.append(_call(f"update_{n}", "update:kw_second_bad", x=4, ys="bad", **f))
+                ops.append(_call(f"transform_{n}", "transform:attrfn_second_bad", x=FN("inc"), ys=FN("bad"), **f))
                 ops.append(_call(f"with_{n}", "with:kw_unknown", nope=1, **f))
                 ops.append(_call(f"transform_{n}", "transform:attrfn_bad", x=FN("bad"), **f))
         ops.append(_call(f"update_{n}", "update:conf", conf[-1], **f))
@@ -391,6 +393,9 @@ def toplevel_ops(rec, obj, P):
                 if P.get("raising"):
                     ops.append(_call("transform", "transform:pair_second_raise", **{n1: FN("inc"), n2: FN("raise")}, **f))
         ops.append(_call("reset", "reset", **f))
+        if P.get("sentinels", True):
+            ops.append(_call("update", "update:one_UNCHANGED", **{tab[0][0]: ["UNCHANGED"]}, **f))
+            ops.append(_call("update", "update:one_MISSING", **{tab[-1][0]: ["MISSING"]}, **f))
         ops.append(_call("transform", "transform:ident+attrfn", FN("ident"), **{tab[0][0]: FN("inc")}, **f))
         if P.get("value_plus_kw", True):
             n0, K0, _ = tab[0]
